@@ -58,9 +58,9 @@ theorem len3_eq_one {len : V3 α → α} (hl : LenSpec3 len) (x y z : α) (h : x
 set_option maxHeartbeats 2000000 in
 theorem extractEulerXYZ_unit {tmin : α} {sqrt sin cos : α → α} {atan2 : α → α → α}
     (ht : EulerTrigSpec sin cos atan2) (m : M44 α)
-    (h0 : Gen.V3.length tmin sqrt ⟨m.x00, m.x01, m.x02⟩ = 1) (h1 : Gen.V3.length tmin sqrt ⟨m.x10, m.x11, m.x12⟩ = 1)
-    (h2 : Gen.V3.length tmin sqrt ⟨m.x20, m.x21, m.x22⟩ = 1) :
-    Gen.M44.extractEulerXYZ tmin sqrt sin cos atan2 m =
+    (h0 : Gen.V3.length tmin tmax sqrt ⟨m.x00, m.x01, m.x02⟩ = 1) (h1 : Gen.V3.length tmin tmax sqrt ⟨m.x10, m.x11, m.x12⟩ = 1)
+    (h2 : Gen.V3.length tmin tmax sqrt ⟨m.x20, m.x21, m.x22⟩ = 1) :
+    Gen.M44.extractEulerXYZ tmin tmax sqrt sin cos atan2 m =
       ⟨atan2 m.x12 m.x22,
        atan2 (-m.x02) (sqrt (m.x00 * m.x00 + m.x01 * m.x01)),
        atan2 (-(cos (-(atan2 m.x12 m.x22)) * m.x10 + sin (-(atan2 m.x12 m.x22)) * m.x20))
@@ -72,7 +72,7 @@ theorem extractEulerXYZ_unit {tmin : α} {sqrt sin cos : α → α} {atan2 : α 
 
 /-- C11's and C12's extracted copies of `extractEulerXYZ` are the same function -/
 theorem extractEulerXYZ_copies_agree {tmin : α} {sqrt sin cos : α → α} {atan2 : α → α → α} (m : M44 α) :
-    Gen.M44.extractEulerXYZ tmin sqrt sin cos atan2 m = Gen.Euler.extractEulerXYZ tmin sqrt sin cos atan2 m := rfl
+    Gen.M44.extractEulerXYZ tmin tmax sqrt sin cos atan2 m = Gen.Euler.extractEulerXYZ tmin tmax sqrt sin cos atan2 m := rfl
 
 /-- `rotH3` (C12's "rotation" factor) is `Matrix44::setEulerAngles` -/
 theorem setEulerAngles_toMat (sin cos : α → α) (a : V3 α) :
@@ -90,7 +90,7 @@ theorem transpose_eq_adjugate {A : Matrix (Fin 3) (Fin 3) α} (ho : A * Aᵀ = 1
 theorem rotH3_extractEulerXYZ {tmin : α} {sqrt sin cos : α → α} {atan2 : α → α → α}
     (hs : SqrtSpec sqrt) (ht : EulerTrigSpec sin cos atan2) (R : M44 α)
     (ho : lin3 R * (lin3 R)ᵀ = 1) (hd : (lin3 R).det = 1) :
-    rotH3 sin cos (Gen.M44.extractEulerXYZ tmin sqrt sin cos atan2 R) = linH3 R := by
+    rotH3 sin cos (Gen.M44.extractEulerXYZ tmin tmax sqrt sin cos atan2 R) = linH3 R := by
   have hadj := transpose_eq_adjugate ho hd
   have hk : (lin3 R)ᵀ * lin3 R = 1 := mul_eq_one_comm.mp ho
   obtain ⟨a, b, c, m03, d, e, f, m13, g, h, i, m23, m30, m31, m32, m33⟩ := R
@@ -111,9 +111,9 @@ theorem rotH3_extractEulerXYZ {tmin : α} {sqrt sin cos : α → α} {atan2 : α
   simp [lin3, Matrix.adjugate_fin_three] at ca cb cc cd ce cf cg ch ci
   have k22 := congrFun (congrFun hk 2) 2
   simp [lin3, Matrix.mul_apply, Fin.sum_univ_three] at k22
-  have l0 : Gen.V3.length tmin sqrt ⟨a, b, c⟩ = 1 := len3_eq_one (V3_length_spec hs) _ _ _ r00
-  have l1 : Gen.V3.length tmin sqrt ⟨d, e, f⟩ = 1 := len3_eq_one (V3_length_spec hs) _ _ _ r11
-  have l2 : Gen.V3.length tmin sqrt ⟨g, h, i⟩ = 1 := len3_eq_one (V3_length_spec hs) _ _ _ r22
+  have l0 : Gen.V3.length tmin tmax sqrt ⟨a, b, c⟩ = 1 := len3_eq_one (V3_length_spec hs) _ _ _ r00
+  have l1 : Gen.V3.length tmin tmax sqrt ⟨d, e, f⟩ = 1 := len3_eq_one (V3_length_spec hs) _ _ _ r11
+  have l2 : Gen.V3.length tmin tmax sqrt ⟨g, h, i⟩ = 1 := len3_eq_one (V3_length_spec hs) _ _ _ r22
   rw [extractEulerXYZ_unit ht _ l0 l1 l2]
   simp only [ht.cos_neg, ht.sin_neg]
   generalize hX : atan2 f i = X
@@ -193,7 +193,7 @@ theorem M44_extractSHRT_recompose {tmin tmax : α} {sqrt sin cos : α → α} {a
 `scale * sansScaling (m) = m` -/
 theorem M44_sansScaling_recompose {tmin tmax : α} {sqrt sin cos : α → α} {atan2 : α → α → α}
     (hs : SqrtSpec sqrt) (ht : EulerTrigSpec sin cos atan2) {m : M44 α} (ha : Affine3 m) {r : Res3 α}
-    (he : ear44 tmax (Gen.V3.length tmin sqrt) m = some r) :
+    (he : ear44 tmax (Gen.V3.length tmin tmax sqrt) m = some r) :
     (Gen.M44.sansScaling tmin tmax sqrt sin cos atan2 m).toMat = shearH3 r.shr * linH3 r.m * transH3 ⟨m.x30, m.x31, m.x32⟩ ∧
     scaleH3 r.scl * (Gen.M44.sansScaling tmin tmax sqrt sin cos atan2 m).toMat = m.toMat :=
   M44_sansScaling_recompose_partial hs ha he (fun R ho hd => rotH3_extractEulerXYZ hs ht R ho hd)
@@ -201,7 +201,7 @@ theorem M44_sansScaling_recompose {tmin tmax : α} {sqrt sin cos : α → α} {a
 /-- `removeScaling (Matrix44)`: returns true and leaves shear * rotation * translation in `m` -/
 theorem M44_removeScaling_recompose {tmin tmax : α} {sqrt sin cos : α → α} {atan2 : α → α → α}
     (hs : SqrtSpec sqrt) (ht : EulerTrigSpec sin cos atan2) {m : M44 α} (ha : Affine3 m) {r : Res3 α}
-    (he : ear44 tmax (Gen.V3.length tmin sqrt) m = some r) :
+    (he : ear44 tmax (Gen.V3.length tmin tmax sqrt) m = some r) :
     (Gen.M44.removeScaling tmin tmax sqrt sin cos atan2 m).1 = true ∧
     (Gen.M44.removeScaling tmin tmax sqrt sin cos atan2 m).2.toMat = shearH3 r.shr * linH3 r.m * transH3 ⟨m.x30, m.x31, m.x32⟩ ∧
     scaleH3 r.scl * (Gen.M44.removeScaling tmin tmax sqrt sin cos atan2 m).2.toMat = m.toMat := by
